@@ -51,6 +51,10 @@ CHECKS = {
    technique="exhaustive query x history enumeration on a real node with real matchers: after every transaction every subscription's materialised rows and replayed event stream are compared with the query re-evaluated on the node database",
    text="12 queries (projection, expression, WHERE on value / nullable, INNER and LEFT joins, LEFT JOIN with IS NULL filter, alias, composite key, join on composite key, SELECT *, two LEFT JOINs) subscribed at once; every history of 2 (thorough 3) transactions over 16 operations on keys {1,2} of three tables (upserts, updates, set-to-NULL, deletes, re-parenting, orphaning, delete+re-insert in one transaction, two-table transaction), applied locally; after each step: rows of the subscription database == the query on the node database (multisets), replaying snapshot + insert/update/delete events by row id gives the same, change ids consecutive, no event when the key-extended result did not change.",
    note="Known finding listed in known_findings.json (LEFT JOIN, change on the nullable side only); a subscription hit by it is not judged again in that history. Quiescence uses a 1000-key barrier batch through the subscription's own channel plus the matcher.batch_done emit hook. Remote application (process_multiple_changes / buffered apply -> match_changes_from_db_version) is not enumerated yet."),
+ "C13": dict(engine="subs", design="§5 C13",
+   technique="exhaustive enumeration of stop points of a subscription's life on a real node (every commit boundary of its database log for abrupt stops; trip positions, late transactions and trip-during-batch for graceful stops), each followed by a restart through the real setup()",
+   text="Two queries (single table, inner join); 0..2 (thorough 0..4) processed batches before the stop. Abrupt: the subscription database cut after every commit frame of its WAL (creation, running marker, both commits of each batch), paired with the node database at the end of the run. Graceful: tripwire tripped before/between/after batches, with 0..2 transactions arriving after the trip and before the handles are dropped, and with the trip landing while a batch is parked before its commit (scheduling-point hook). After restart through setup(): a state other than 'completed' => directory removed and id unknown; 'completed' => same id restored, materialised rows == the query on the node database, change log not shorter than the events delivered (and exactly ending with the last one when nothing arrived late), the first new event has the next id; a graceful shutdown must end 'completed' and the matcher must finish.",
+   note="A transaction whose broadcast task runs only after the handles were dropped (a real but narrow race between spawn_counted(broadcast_changes) and drop_handles) is not explored; late transactions are handed to the matcher before the handles are dropped."),
  "C14": dict(engine="subs", design="§5 C14",
    technique="exhaustive enumeration of write sequences x arrival orders x batchings through the real update feed (UpdatesManager / batch_candidates) on a real node, with the last-notification oracle evaluated at every quiescent point",
    text="Every sequence of 3 (thorough 4) operations {insert/update/delete key 1, insert/delete key 2} starting with an insert, observed (a) on the writing node and (b) on a second node that receives the resulting versions in every arrival order, each alone and all in one batch (thorough: every batching), through process_multiple_changes and the buffered-apply path; plus cold-feed cases that leave the 600 ms aggregation window in place. At every quiescent point: every key whose row changed has a notification, and the last notification for a key says 'delete' exactly when the row is absent.",
@@ -109,7 +113,7 @@ def main():
             {"name": "ingest", "path": "harness/src/bin/ingest.rs", "serves_properties": ["C10"], "kind_free_text": "exhaustive arrival sequences through the real handle_changes loop"},
             {"name": "localtx", "path": "harness/src/bin/localtx.rs", "serves_properties": ["C07"], "kind_free_text": "request-sequence enumeration against a reference model"},
             {"name": "locks", "path": "harness/src/bin/locks.rs", "serves_properties": ["C20"], "kind_free_text": "stateless DFS over hand-polled SplitPool requesters"},
-            {"name": "subs", "path": "harness/src/bin/subs.rs", "serves_properties": ["C11", "C14"], "kind_free_text": "query x history enumeration with real matchers / update feeds"},
+            {"name": "subs", "path": "harness/src/bin/subs.rs", "serves_properties": ["C11", "C13", "C14"], "kind_free_text": "query x history enumeration with real matchers / update feeds"},
             {"name": "members", "path": "harness/src/bin/members.rs", "serves_properties": ["C18"], "kind_free_text": "stateright BFS over the real Members methods"},
             {"name": "repl", "path": "harness/src/bin/repl.rs", "serves_properties": ["C01", "C03", "C05", "C06"], "kind_free_text": "replay-from-history explicit-state BFS over 2-3 real nodes"},
             {"name": "pure", "path": "harness/src/bin/pure.rs", "serves_properties": ["C04", "C08"], "kind_free_text": "exhaustive small-scope enumeration of pure functions against set models"},
